@@ -253,13 +253,23 @@ func runC10(p params) error {
 			"forged-short-identifier": {ok(1), {K: "forge", Srv: 1, Len: 16}, ok(1), {K: "forge", Srv: 1, Len: 1}, ok(1), {K: "forge", Srv: 1, Len: 31}, ok(1), {K: "forge", Srv: 1, Len: 8}, ok(1)},
 			"three-servers-capacity":  {ok(1), ok(2), ok(3), ok(1), ok(2), ok(3), ok(3), ok(1)},
 		}
+		// sessions created on every suite family under every policy, resumed twice: the identity both ends report stays
+		// the one of the connection that created the session (ECDHE: the client's certificates whatever the policy says)
+		for pol := 0; pol < 6; pol++ {
+			for _, su := range [][]uint16{{0xe051}, {0xe011}, {0xe053}, {0xe013}} {
+				corpus[fmt.Sprintf("identity-policy-%d-suite-%04x", pol, su[0])] = []c10Ev{conn(1, su, su, "cli", pol, "server.test", false), conn(1, su, su, "cli", pol, "server.test", false), conn(1, su, su, "cli", pol, "server.test", false)}
+			}
+		}
 		names := make([]string, 0, len(corpus))
 		for k := range corpus {
 			names = append(names, k)
 		}
 		sort.Strings(names)
 		for _, k := range names {
-			for _, caps := range [][2]int{{64, 64}, {1, 1}, {2, 2}} {
+			for ci, caps := range [][2]int{{64, 64}, {1, 1}, {2, 2}} {
+				if ci > 0 && strings.HasPrefix(k, "identity-") && p.tier != "thorough" {
+					continue
+				}
 				c10AddCase(out, "corpus-"+k, c10Input{Stack: st, CCap: caps[0], SCap: caps[1], Evs: corpus[k]})
 			}
 		}
